@@ -29,11 +29,10 @@ ASSUMPTIONS = ['A-IO: the reader delivers the whole file (after the leading comm
                'vcf_header.py regular-expression parsing is not modelled: the INFO declarations (key, type, scalar/list) are case inputs',
                'SequenceID columns are compared as text (NUL padding of the fixed-width string array is not modelled)',
                'missing values: the library represents a missing Optional[int] as 0 and a missing Optional[float] as NaN; the specification adopts that representation']
-PARTIAL = ['C02_optint_partial / C02_optint_all_missing: Optional[int] columns are proved correct for the code as it is only when no row, or every row, is the "." placeholder (mixed columns: C02_optint_refuted, finding C02-optint-mixed-missing; the repaired wrapper is proved correct without guard: C02_optint_fixed_correct)',
-           'C02_intlist_refuted: list columns with trailing commas are wrong in the code as it is (finding C02-list-trailing-comma); no positive theorem is proved for the whole-column split',
-           'C02_sid_partial: identifier columns are proved correct when some text of the column is non-empty (all-empty: C02_sid_all_empty_refuted, finding C02-sid-all-empty)',
-           'C02_info_short_refuted: typed INFO lookup; no positive theorem (correspondence only)',
-           'end-to-end theorems cover BED3 and chrom.sizes; BED6/12, bedGraph, narrowPeak, GTF/GFF3/wig, pairs, SAM, GFA, VCF, FASTQ, FASTA are tied by T1/T2/T3 on their kernels plus correspondence']
+PARTIAL = ['identifier (SequenceID) columns of delimited formats are proved correct when some text of the column is non-empty (C02_sid_partial; all-empty: C02_sid_all_empty_refuted, finding C02-sid-all-empty)',
+           'C02_optint_refuted / C02_intlist_refuted / C02_info_short_refuted record what was false of the code before the repairs now in /repo; the positive theorems (C02_optint_fixed_correct, C02_intlist_fixed_correct, C02_info_*_correct) are about the repaired code the model follows',
+           'end-to-end theorems: BED3/6/12, chrom.sizes, pairs, GFA, GTF, VCF fixed columns with undeclared INFO (C02_delimited_end_to_end), SAM on LF files (C02_sam_end_to_end), FASTQ and two-line FASTA (LF and CRLF); bedGraph / narrowPeak column-wise without the float columns (C02_delimited_columns)',
+           'correspondence only: float columns (exact-rational model within 2^-50), wrapped FASTA, GFF3 / wig interior-comment deletion, list-valued and Float INFO keys and the Flag lookup, genotype matrices, CRLF for SAM / GFF3 / wig (recorded findings)']
 PER_FILE = 40
 
 # ----------------------------------------------------------------------------- formats
@@ -250,7 +249,7 @@ def _info_text(g, opts):
             v = ','.join(g.uint(4) for _ in range(r.randint(1, 3))) if lst else ('.' if r.random() < opts['p_dot'] else g.uint(5))
             items.append(key + '=' + v)
         elif typ == 'Float':
-            v = ','.join(g.flt(True, False) for _ in range(r.randint(1, 3))) if lst else g.flt(True, True)
+            v = ','.join(g.flt(True, False) for _ in range(r.randint(1, 3))) if lst else ('.' if r.random() < opts['p_dot'] else g.flt(True, True))
             items.append(key + '=' + v)
         else:
             items.append(key + '=' + g.text(0, 'abcXYZ019_.:-,' if lst else 'abcXYZ019_.:-'))
@@ -589,6 +588,68 @@ SID_COLS = {'bed3': {0: 'chromosome'}, 'bed6': {0: 'chromosome', 3: 'name'}, 'be
 EAGER = ('gtf', 'gff', 'fasta')
 
 
+# python mirror of Model.C02.schema, used ONLY to make the finding matchers exact (never for a verdict)
+_B3 = [(0, 'str'), (1, 'int'), (2, 'int')]
+_B6 = _B3 + [(3, 'str'), (4, 'optint'), (5, 'str')]
+_GTF = [(0, 'str'), (1, 'str'), (2, 'str'), (3, 'int'), (4, 'int'), (5, 'str'), (6, 'str'), (7, 'str'), (8, 'str')]
+SCHEMA_PY = {
+    'bed3': _B3, 'bed6': _B6,
+    'bed12': _B6 + [(6, 'int'), (7, 'int'), (8, 'str'), (9, 'int'), (10, 'ints'), (11, 'ints')],
+    'bdg': _B3 + [(3, 'float')], 'wig': _B3 + [(3, 'float')],
+    'npk': _B6 + [(6, 'float'), (7, 'float'), (8, 'float'), (9, 'int')],
+    'sizes': [(0, 'str'), (1, 'int')], 'gtf': _GTF, 'gff': _GTF,
+    'pairs': [(0, 'str'), (1, 'str'), (2, 'int'), (3, 'str'), (4, 'int'), (5, 'str'), (6, 'str')],
+    'sam': [(0, 'str'), (1, 'int'), (2, 'str'), (3, 'int'), (4, 'int'), (5, 'str'), (6, 'str'), (7, 'int'), (8, 'int'),
+            (9, 'str'), (10, 'str'), (11, 'rest')],
+    'gfa': [(1, 'str'), (2, 'str')],
+}
+
+
+def _expected_columns(case):
+    """[(kind, rows)] in the order of the observed columns, or None when this mirror does not cover the format."""
+    sch = SCHEMA_PY.get(case['fmt'])
+    if sch is None:
+        return None
+    from fractions import Fraction
+    out = []
+    for j, kind in sch:
+        rows = []
+        for r in case['recs']:
+            f = r[j] if j < len(r) else ''
+            if kind == 'str':
+                rows.append(f.encode('latin1').hex())
+            elif kind == 'int':
+                rows.append(int(f))
+            elif kind == 'optint':
+                rows.append(0 if f == '.' else int(f))
+            elif kind == 'ints':
+                rows.append([int(x) for x in f.split(',') if x != ''])
+            elif kind == 'float':
+                rows.append(Fraction(f))
+            elif kind == 'rest':
+                rows.append('\t'.join(r[11:]).encode('latin1').hex())
+        out.append(('float' if kind == 'float' else ('ints' if kind == 'ints' else ('int' if kind in ('int', 'optint') else 'str')), rows))
+    return out
+
+
+def _col_equal(expected, observed, cr_suffix=False, last_plain=False):
+    """is the observed column [name, kind, rows] the expected one (optionally: every text followed by CR)?"""
+    from fractions import Fraction
+    kind, rows = expected
+    if observed[1] != kind or len(observed[2]) != len(rows):
+        return False
+    for i, (e, o) in enumerate(zip(rows, observed[2])):
+        if kind == 'float':
+            if o in ('nan', 'inf') or abs(Fraction(o[0], o[1]) - e) > abs(e) / 2 ** 40:
+                return False
+        elif cr_suffix and not (last_plain and i == len(rows) - 1):
+            if o != e + '0d':
+                return False
+        elif o != e:
+            return False
+    return True
+
+
 def _expected_failures(case):
     """columns that the recorded findings say fail for this input: {column name: finding id}"""
     fmt, recs = case['fmt'], case['recs']
@@ -598,53 +659,56 @@ def _expected_failures(case):
             out[name] = 'C02-sid-all-empty'
     if case['crlf'] and fmt == 'wig':
         out['value'] = 'C02-crlf-interior-comment-formats'
-    if fmt in ('bed6', 'bed12', 'npk') and _optint_mixed([r[4] for r in recs]):
-        out['score'] = 'C02-optint-mixed-missing'
-    if fmt.startswith('vcf') and case.get('decl'):
-        size = sum(len(r[7]) + 1 for r in recs)
-        for k, t, l in case['decl']:
-            if t != 'Flag' and size <= len(k) + 1:
-                out['info.' + k] = 'C02-info-short-buffer'
-            elif t == 'Integer' and not l:
-                vals = [it.split('=', 1)[1] for r in recs for it in r[7].split(';') if it.startswith(k + '=')]
-                if _optint_mixed(vals) or ('.' in vals and len(vals) < len(recs)):
-                    out['info.' + k] = 'C02-optint-mixed-missing'
     return out
 
 
 def finding(case, o):
+    """id of the recorded finding whose EXACT failure mode this observation shows, else None.  Exact = the predicted
+    columns fail (or the predicted exception is raised), the number of entries is right and every other column has the
+    value the format assigns; so an observation that deviates in any other way is never attributed to a finding."""
     fmt = case['fmt']
     recs = case['recs']
     exp = _expected_failures(case)
-    # CRLF handling missing in the SAM / interior-comment readers
-    if case['crlf'] and fmt == 'sam' and o.get('error') == 'AttributeError':
-        return 'C02-crlf-sam'
-    if 'cols' in o:
-        bad = {c[0] for c in o['cols'] if c[1] == 'err'}
-        # every failing column is one a single recorded finding predicts, and nothing else failed
-        if bad:
-            ids = {exp.get(b) for b in bad}
-            if bad == set(exp) and None not in ids:
-                return sorted(ids)[0]
+    tab_comment = fmt in INTERIOR and any('\t' in c for cs in case['comments'].values() for c in cs)
+    if 'error' in o:
+        # whole-read failures: exactly the recorded exception class
+        if case['crlf'] and fmt == 'sam' and o['error'] == 'AttributeError':
+            return 'C02-crlf-sam'
+        if tab_comment and o['error'] == 'ValueError':
+            return 'C02-interior-comment-with-tab'
+        if fmt in ('gtf', 'gff') and exp and set(exp.values()) == {'C02-sid-all-empty'} and o['error'] == 'ValueError':
+            return 'C02-sid-all-empty'
+        return None
+    if tab_comment:
+        return None                          # only the recorded ValueError is this finding's mode
+    bad = {c[0] for c in o['cols'] if c[1] == 'err'}
+    if o.get('n') != len(recs):
+        return None
+    if fmt.startswith('vcf'):
+        # the mirror does not cover INFO / genotype columns: only the pure identifier failure is matched
+        if bad and bad == set(exp) and set(exp.values()) == {'C02-sid-all-empty'} and \
+                all(c[1] != 'err' or c[0] == 'chromosome' for c in o['cols']):
+            return 'C02-sid-all-empty'
+        return None
+    want = _expected_columns(case)
+    if want is None or len(want) != len(o['cols']):
+        return None
+    gff_cr = case['crlf'] and fmt == 'gff'
+    ids = set()
+    for k, (w, c) in enumerate(zip(want, o['cols'])):
+        if c[1] == 'err':
+            if c[0] not in exp:
+                return None
+            ids.add(exp[c[0]])
+        elif c[0] in exp:
+            return None                      # predicted to fail but did not: not this finding's mode
+        elif gff_cr and k == len(want) - 1:
+            if not _col_equal(w, c, cr_suffix=True, last_plain=not case['final_newline']):
+                return None
+            ids.add('C02-crlf-interior-comment-formats')
+        elif not _col_equal(w, c):
             return None
-    elif exp and fmt in EAGER and len(set(exp.values())) == 1 and o.get('error') == 'ValueError':
-        return list(exp.values())[0]
-    # list column written with the trailing comma the BED specification allows (silently wrong values)
-    if fmt == 'bed12' and 'cols' in o and any(r[10].endswith(',') or r[11].endswith(',') for r in recs):
-        return 'C02-list-trailing-comma'
-    # scalar Float INFO key: '.' mixed with numbers silently becomes 0.0
-    if fmt.startswith('vcf') and case.get('decl') and 'cols' in o:
-        for k, t, l in case['decl']:
-            if t == 'Float' and not l:
-                vals = [it.split('=', 1)[1] for r in recs for it in r[7].split(';') if it.startswith(k + '=')]
-                if '.' in vals and (len(vals) < len(recs) or any(v != '.' for v in vals)):
-                    return 'C02-optint-mixed-missing'
-    if case['crlf'] and fmt == 'gff' and 'cols' in o:
-        return 'C02-crlf-interior-comment-formats'
-    # interior comment line that contains a TAB
-    if fmt in INTERIOR and any('\t' in c for cs in case['comments'].values() for c in cs):
-        return 'C02-interior-comment-with-tab'
-    return None
+    return sorted(ids)[0] if ids else None
 
 
 def search(tier, seed, disagreeing):
